@@ -621,7 +621,17 @@ func genLock(c *Case, rng *vrt.Rand, tier string) func(r *Runner, i int) *Op {
 		// a janitor damages and repairs the older data file: Opens in between fail after taking the lock
 		var j []Op
 		for k := 0; k < rng.Range(1, 3); k++ {
-			j = append(j, Op{K: "damage"}, Op{K: "yield"}, Op{K: "yield"}, Op{K: "repair"}, Op{K: "yield"})
+			j = append(j, Op{K: "damage"})
+			for y := 0; y < rng.Range(2, 8); y++ {
+				j = append(j, Op{K: "yield"})
+			}
+			j = append(j, Op{K: "repair"}, Op{K: "yield"})
+		}
+		if rng.Chance(0.5) { // start damaged: the very first Opens fail after taking the lock
+			j = append([]Op{{K: "damage"}}, j[1:]...)
+			for ci := range c.Clients {
+				c.Clients[ci] = append([]Op{{K: "yield"}}, c.Clients[ci]...)
+			}
 		}
 		c.Clients = append(c.Clients, j)
 	}
